@@ -660,19 +660,29 @@ Fixpoint count_grace (g : grace) (tr : list label) : nat :=
 
 Definition spent (g : grace) (s : state) : nat := if mem_grace g (graces s) then 1 else 0.
 
+Lemma graces_other_step : forall s l s', (forall g, l <> GraceTimeout g) -> step s l = Some s' -> graces s' = graces s.
+Proof.
+  intros s l s' Hn H.
+  destruct l; try (exfalso; eapply Hn; reflexivity); unfold step in H; inv_step H; use_cancel_spec; cbn in *;
+    congruence.
+Qed.
+
+Lemma count_other : forall g l, (forall g', l <> GraceTimeout g') -> count_grace g [l] = 0.
+Proof. intros g l Hn. destruct l; try reflexivity. exfalso; eapply Hn; reflexivity. Qed.
+
 Lemma graces_step : forall s l s' g, step s l = Some s' ->
   spent g s' = spent g s + count_grace g [l] /\ spent g s' <= 1.
 Proof.
   intros s l s' g H. unfold spent.
-  destruct l; try (unfold step in H; inv_step H; use_cancel_spec; unfold mem_grace in *; cbn in *;
-                   repeat match goal with Hg : graces _ = graces _ |- _ => rewrite Hg end;
-                   split; [lia | destruct (existsb (grace_eqb g) (graces s)); lia]; fail).
-  match goal with H : step _ (GraceTimeout ?x) = _ |- _ => rename x into gg end.
-  unfold step in H. destruct (mem_grace gg (graces s)) eqn:Em; [discriminate|].
-  assert (Hgr : graces s' = gg :: graces s) by (inv_step H; reflexivity).
-  rewrite Hgr, mem_grace_cons. cbn [count_grace]. destruct (grace_eqb g gg) eqn:Eg.
-  - apply grace_eqb_eq in Eg; subst gg. rewrite Em. cbn. lia.
-  - cbn. destruct (mem_grace g (graces s)); lia.
+  assert (Hc : (forall g', l <> GraceTimeout g') \/ exists gg, l = GraceTimeout gg).
+  { destruct l; try (left; intros g' Hx; discriminate Hx). right; eauto. }
+  destruct Hc as [Hn|[gg ->]].
+  - rewrite (graces_other_step _ _ _ Hn H), (count_other g l Hn). split; [lia | destruct (mem_grace g (graces s)); lia].
+  - unfold step in H. destruct (mem_grace gg (graces s)) eqn:Em; [discriminate|].
+    assert (Hgr : graces s' = gg :: graces s) by (inv_step H; reflexivity).
+    rewrite Hgr, mem_grace_cons. cbn [count_grace]. destruct (grace_eqb g gg) eqn:Eg.
+    + apply grace_eqb_eq in Eg; subst gg. rewrite Em. cbn. lia.
+    + cbn. destruct (mem_grace g (graces s)); lia.
 Qed.
 
 Lemma count_grace_app : forall g a b, count_grace g (a ++ b) = count_grace g a + count_grace g b.
@@ -752,11 +762,6 @@ Definition daemon_alive_unasked_at_cleanup (tr : list label) (d : nat) : bool :=
 Lemma daemons_stopped_before_cleanup_refuted : daemon_alive_unasked_at_cleanup tr_f2001 0 = true.
 Proof. vm_compute. reflexivity. Qed.
 
-(* partial: what the killer's completion does guarantee *)
-Definition Inv_killer (s : state) : Prop :=
-  forall o, ph s (TRoot RKiller) = PDone o -> (forall e, o <> OErr e) -> swept s = true ->
-  forall d, In d (asked s) -> is_done (ph s (TDaemon d)) = true \/ In d (abandoned s).
-
 (* two stop triggers: the stop flag, then a cancellation while run_tasks is already stopping the roots *)
 Definition tr_double : list label :=
   [StartupOk; Flag; StopFlag; Finish TWaiter OOk; Finish (TRoot RStopper) OOk; MainStop; Cancel].
@@ -788,7 +793,7 @@ Definition tr_failed_startup : list label :=
    Finish (TRoot RPoster) OCancelled; Finish (TRoot RAdmChain) OCancelled; Finish (TRoot RAdmVal) OCancelled;
    Finish (TRoot RAdmMut) OCancelled; Finish (TRoot RAdmSrv) OCancelled; Finish (TRoot RResObs) OCancelled;
    Finish (TRoot RNsObs) OCancelled; Finish (TRoot ROrch) OCancelled; RootsStopped; GraceTimeout GHung;
-   Return (RErr EStartup)].
+   Finish TWaiter OCancelled; Return (RErr EStartup)].
 Lemma failed_startup_accepted : returned_with tr_failed_startup (RErr EStartup) = true.
 Proof. vm_compute. reflexivity. Qed.
 
@@ -804,3 +809,80 @@ Definition tr_root_failure : list label :=
    Return (RErr (EOf (TRoot RResObs)))].
 Lemma root_failure_accepted : returned_with tr_root_failure (RErr (EOf (TRoot RResObs))) = true.
 Proof. vm_compute. reflexivity. Qed.
+
+(* ------------------------------------------------------------------ 9. statements exported to Props/C20.v *)
+
+Lemma no_api_before_startup : forall pre t post s, run init (pre ++ Api t :: post) = Some s ->
+  exists p1 p2, pre = p1 ++ Flag :: p2 /\ In StartupOk p1.
+Proof.
+  intros pre t post s H. pose proof (api_after_flag _ _ _ _ H) as Hin.
+  apply in_split in Hin as (p1&p2&->). exists p1, p2. split; [reflexivity|].
+  rewrite <- app_assoc in H. cbn in H. eapply flag_after_startup_ok; eauto.
+Qed.
+
+Lemma no_child_before_startup : forall pre t b post s, run init (pre ++ Spawn t b :: post) = Some s ->
+  exists p1 p2, pre = p1 ++ Flag :: p2 /\ In StartupOk p1.
+Proof.
+  intros pre t b post s H. pose proof (spawn_after_flag _ _ _ _ _ H) as Hin.
+  apply in_split in Hin as (p1&p2&->). exists p1, p2. split; [reflexivity|].
+  rewrite <- app_assoc in H. cbn in H. eapply flag_after_startup_ok; eauto.
+Qed.
+
+Lemma returns_and_reraises : forall s r s', step s (Return r) = Some s' ->
+  match r with
+  | ROk => forall t e, In t (root_tasks ++ hung s) -> ph s t <> PDone (OErr e)
+  | RErr e => exists t, In t (root_tasks ++ hung s) /\ ph s t = PDone (OErr e)
+  | RCancelled => mn s = MCStopHung
+  end.
+Proof.
+  intros s r s' H. apply return_sound in H as [_ H]. destruct r.
+  - destruct H as [_ H]. intros t e Hin. eapply no_error_sound; eauto.
+  - destruct H as [_ H]. now apply first_error_sound.
+  - exact H.
+Qed.
+
+Lemma root_failure_stops_all : forall tr s, run init tr = Some s ->
+  (forall x, mn s = MWait -> is_done (ph s (TRoot x)) = true -> act s <> AFlag ->
+     exists s', step s MainStop = Some s' /\ mn s' = MStopRoots) /\
+  (forall r, mn s = MReturned r -> r <> RCancelled -> forall x, is_done (ph s (TRoot x)) = true).
+Proof.
+  intros tr s H. split.
+  - intros x; apply mainstop_enabled.
+  - intros r Hm Hr. eapply returns_after_roots; eauto.
+Qed.
+
+(* the daemon killer ends (other than by its own failure) only after its sweep, with every daemon it asked
+   either done or abandoned after its timeouts *)
+Lemma killer_finish_partial : forall s o s', step s (Finish (TRoot RKiller) o) = Some s' ->
+  ph s (TRoot RKiller) = PEnding o -> (forall e, o <> OErr e) ->
+  swept s = true /\ forall d, In d (asked s) -> is_done (ph s (TDaemon d)) = true \/ In d (abandoned s).
+Proof.
+  intros s o s' H Hp Ho. unfold step in H. rewrite Hp in H.
+  destruct (outcome_eqb o o && finish_ready s (TRoot RKiller) o) eqn:E; [|discriminate H].
+  apply andb_true_iff in E as [_ E]. unfold finish_ready in E.
+  destruct o; try (exfalso; eapply Ho; reflexivity);
+    apply andb_true_iff in E as [E1 E2]; (split; [exact E1|]); intros d Hin;
+    rewrite forallb_forall in E2; specialize (E2 d Hin); apply orb_true_iff in E2 as [E2|E2]; auto;
+    right; unfold mem_nat in E2; apply existsb_exists in E2 as (x&Hx&Ex); apply Nat.eqb_eq in Ex; now subst.
+Qed.
+
+(* keep-alive ends only after its final touch *)
+Lemma keepalive_finish_partial : forall s k o s', step s (Finish (TKeepalive k) o) = Some s' ->
+  ph s (TKeepalive k) = PEnding o -> In k (withdrawn s).
+Proof.
+  intros s k o s' H Hp. unfold step in H. rewrite Hp in H.
+  destruct (outcome_eqb o o && finish_ready s (TKeepalive k) o) eqn:E; [|discriminate H].
+  apply andb_true_iff in E as [_ E]. unfold finish_ready, mem_nat in E.
+  apply existsb_exists in E as (x&Hx&Ex). apply Nat.eqb_eq in Ex. now subst.
+Qed.
+
+(* ... and the orchestrator, when cancelled, ends only after every watcher and keep-alive it created *)
+Lemma orch_finish_partial : forall s s', step s (Finish (TRoot ROrch) OCancelled) = Some s' ->
+  ph s (TRoot ROrch) = PEnding OCancelled ->
+  forall t, In t (spawned s) -> is_ensemble t = true -> is_done (ph s t) = true.
+Proof.
+  intros s s' H Hp t Hin He. unfold step in H. rewrite Hp in H.
+  destruct (outcome_eqb OCancelled OCancelled && finish_ready s (TRoot ROrch) OCancelled) eqn:E; [|discriminate H].
+  apply andb_true_iff in E as [_ E]. unfold finish_ready in E. apply andb_true_iff in E as [_ E].
+  unfold all_done in E. rewrite forallb_forall in E. apply E. apply filter_In. auto.
+Qed.
